@@ -2,6 +2,7 @@
 // @id C03.setup_consistency
 // @engine B
 // @entry vfh_C03_setup_consistency
+// @shared_state_watch
 // @tier Q
 // @reach setup.compared
 // @funcs Phreeqc::quick_setup; Phreeqc::setup_pure_phases; Phreeqc::setup_ss_assemblage
